@@ -5,5 +5,20 @@ package main
 func init() {
 	gfSpecs = append(gfSpecs,
 		gfSpec{Pkg: "./pkg/vm/stackitem", Func: "CheckIntegerSize", Lean: "wireCheckIntegerSize"},
+		gfSpec{Pkg: "./pkg/core/transaction", Func: "ScopesFromByte", Lean: "wireScopesFromByte"},
+		gfSpec{Pkg: "./pkg/core/transaction", Recv: "Signer", Func: "DecodeBinary", Lean: "wireSignerDecodeBinary"},
+		gfSpec{Pkg: "./pkg/vm/stackitem", Func: "ToInt32", Lean: "wireToInt32"},
+		gfSpec{Pkg: "./pkg/vm/stackitem", Func: "ToUint16", Lean: "wireToUint16"},
+		gfSpec{Pkg: "./pkg/io", Func: "PutVarUint", Lean: "wirePutVarUint"},
+		gfSpec{Pkg: "./pkg/core/transaction", Recv: "Transaction", Func: "DecodeBinary", Lean: "wireTxDecodeBinary"},
+		gfSpec{Pkg: "./pkg/core/transaction", Recv: "Transaction", Func: "Size", Lean: "wireTxSize"},
+		gfSpec{Pkg: "./pkg/core/transaction", Func: "NewTransactionFromBytes", Lean: "wireNewTransactionFromBytes"},
+		gfSpec{Pkg: "./pkg/core/transaction", Recv: "OracleResponse", Func: "DecodeBinary", Lean: "wireOracleResponseDecodeBinary"},
+		gfSpec{Pkg: "./pkg/core/block", Recv: "Header", Func: "DecodeBinary", Lean: "wireHeaderDecodeBinary"},
+		gfSpec{Pkg: "./pkg/network/payload", Recv: "GetBlockByIndex", Func: "DecodeBinary", Lean: "wireGetBlockByIndexDecodeBinary"},
+		gfSpec{Pkg: "./pkg/network/payload", Recv: "GetBlocks", Func: "DecodeBinary", Lean: "wireGetBlocksDecodeBinary"},
+		gfSpec{Pkg: "./pkg/smartcontract/nef", Recv: "MethodToken", Func: "DecodeBinary", Lean: "wireMethodTokenDecodeBinary"},
+		gfSpec{Pkg: "./pkg/smartcontract/nef", Recv: "File", Func: "bytes", Lean: "wireNefFileBytes"},
+		gfSpec{Pkg: "./pkg/vm/stackitem", Recv: "ByteArray", Func: "TryInteger", Lean: "wireByteArrayTryInteger"},
 	)
 }
